@@ -112,11 +112,84 @@ def wit_buffer_two_flushes(B: int, f: int, s1: int, s2: int) -> bool:
     return buffer_step_check(B, f, s1, s2, False) == 0
 
 
+# ------------------------------------------------------- buffer + REAL ByteWriter over the fake file system (the seam)
+# ob_buffer_step stands a recording writer behind the buffer; a change on BOTH sides of that seam (what the buffer hands
+# over / what the writer does with it) is invisible to it.  Here the real BufferedOutput feeds the real ByteWriter, the
+# file is the FakeFS model (prior content of arbitrary length, or no file), and what is judged is the file itself - after
+# every close: label + whole visible records so far, nothing else; at the end: exactly the label and the three records.
+
+_MISSING = object()
+
+
+def buffer_file_check(B, had_file, n0, s1, s2, s3, explicit, n_recs):
+    from vf.stubs.memio import kmemoryview
+    fs = FakeFS({'out': Rope.source('prior', n0)} if had_file else {})
+    prev = {k: writer_mod.__dict__.get(k, _MISSING) for k in ('open', 'os', 'memoryview')}
+    writer_mod.open = fs.open
+    writer_mod.os = fs.os_shim()
+    writer_mod.memoryview = kmemoryview
+    try:
+        bw = ByteWriter('out')
+        bw.write_bytes(Rope.source('sul', 80))            # DLISWriter.write_storage_unit_label: straight to the writer
+        bo = BufferedOutput(B, bw)
+        sizes = [s1, s2, s3][:n_recs]
+        names = ['a', 'b', 'c']
+        for k in range(n_recs):
+            r = Rope.source(names[k], sizes[k])
+            if explicit:
+                bo.add_bytes(r, sizes[k])
+            else:
+                bo.add_bytes(r)
+        bo.pass_bytes_to_writer()                          # the end of DLISWriter.write_logical_records
+        want = [('src', 'sul', 0, 80)] + [('src', names[k], 0, sizes[k]) for k in range(n_recs)]
+        got = merged_sources([fs.files['out']])
+        if got != want:
+            return 1                                       # the file is not label + records (lost / extra / stale bytes)
+        if bw.total_size != 80 + sum(sizes):
+            return 2
+        bounds = [80]
+        for k in range(n_recs):
+            bounds.append(bounds[-1] + sizes[k])
+        for snap in fs.snapshots:
+            n = len(snap)
+            if n not in bounds:
+                return 3                                   # on disk: something that is not a whole number of records
+            if merged_sources([snap]) != want[:bounds.index(n) + 1]:
+                return 4
+        return 0
+    finally:
+        for (k, v) in prev.items():
+            if v is _MISSING:
+                writer_mod.__dict__.pop(k, None)
+            else:
+                setattr(writer_mod, k, v)
+
+
+def ob_buffer_file(B: int, had_file: bool, n0: int, s1: int, s2: int, s3: int, explicit: bool, n_recs: int) -> int:
+    """
+    pre: 20 <= B <= 8589934592 and 0 <= n0 <= 100000 and 1 <= n_recs <= 3
+    pre: 20 <= s1 <= 16384 and 20 <= s2 <= 16384 and 20 <= s3 <= 16384 and s1 <= B and s2 <= B and s3 <= B
+    post: _ == 0
+    """
+    return buffer_file_check(B, had_file, n0, s1, s2, s3, explicit, n_recs)
+
+
+def reach_buffer_file(B: int, had_file: bool, n0: int, s1: int, s2: int, s3: int, explicit: bool, n_recs: int) -> int:
+    """
+    pre: 20 <= B <= 8589934592 and 0 <= n0 <= 100000 and 1 <= n_recs <= 3
+    pre: 20 <= s1 <= 16384 and 20 <= s2 <= 16384 and 20 <= s3 <= 16384 and s1 <= B and s2 <= B and s3 <= B
+    post: _ != 0
+    """
+    return buffer_file_check(B, had_file, n0, s1, s2, s3, explicit, n_recs)
+
+
 # -------------------------------------------------------------------------------------------------- ByteWriter
 
 def bytewriter_check(n0, n1, n2, n3, explicit):
     fs = FakeFS({'out': Rope.source('prior', n0)})
     writer_mod.open = fs.open
+    _prev_os = writer_mod.__dict__.get('os', _MISSING)
+    writer_mod.os = fs.os_shim()           # a writer that asks the OS about its target is answered by the same model
     try:
         bw = ByteWriter('out')
         sizes = [n1, n2, n3]
@@ -137,6 +210,10 @@ def bytewriter_check(n0, n1, n2, n3, explicit):
             return 6
     finally:
         del writer_mod.open
+        if _prev_os is _MISSING:
+            writer_mod.__dict__.pop('os', None)
+        else:
+            writer_mod.os = _prev_os
     return 0
 
 
